@@ -19,20 +19,20 @@ namespace D2P
 /-- **C05: lineage of a paragraph inside a table cell.** -/
 theorem C05_cell_lineage (cfg : PartCfg) (num : Dict Str (List NumAttr)) (s s' : DC)
     (i : Nat) (p : Option Str) (t : QName) (m : NsMap) (a : List (QName × Str)) (tx tl : Option Str) (ks : List Xml)
-    (hx : (Xml.elem i p t m a tx tl ks).ptag = paragraphTag) (hk : flatInlineL ks = true)
+    (hx : (Xml.elem i p t m a tx tl ks).ptag = paragraphTag) (hk : flatInlineL ks = true) (hni : NoImpl s)
     (h : walk cfg num true s (.elem i p t m a tx tl ks) = .ok s') :
     ∃ par, leafParsL s'.root = leafParsL s.root ++ [par] ∧ par.elem = some i ∧ par.lineage = tableLineage := by
-  obtain ⟨par, body, bb, h1, _, _, _, h5, _, _, _, _, hl, _⟩ := walk_paragraph cfg num true s s' i p t m a tx tl ks hx hk h
+  obtain ⟨par, body, bb, h1, _, _, _, h5, _, _, _, _, hl, _⟩ := walk_paragraph cfg num true s s' i p t m a tx tl ks hx hk hni h
   exact ⟨par, h1, h5, hl rfl⟩
 
 /-- **C05: element and style.** -/
 theorem C05_elem_style (cfg : PartCfg) (num : Dict Str (List NumAttr)) (c : Bool) (s s' : DC)
     (i : Nat) (p : Option Str) (t : QName) (m : NsMap) (a : List (QName × Str)) (tx tl : Option Str) (ks : List Xml)
-    (hx : (Xml.elem i p t m a tx tl ks).ptag = paragraphTag) (hk : flatInlineL ks = true)
+    (hx : (Xml.elem i p t m a tx tl ks).ptag = paragraphTag) (hk : flatInlineL ks = true) (hni : NoImpl s)
     (h : walk cfg num c s (.elem i p t m a tx tl ks) = .ok s') :
     ∃ par, leafParsL s'.root = leafParsL s.root ++ [par] ∧ par.elem = some i ∧
       getPStyle (.elem i p t m a tx tl ks) = .ok par.style := by
-  obtain ⟨par, body, bb, h1, _, _, _, h5, _, _, _, _, _, hs⟩ := walk_paragraph cfg num c s s' i p t m a tx tl ks hx hk h
+  obtain ⟨par, body, bb, h1, _, _, _, h5, _, _, _, _, _, hs⟩ := walk_paragraph cfg num c s s' i p t m a tx tl ks hx hk hni h
   exact ⟨par, h1, h5, hs.1⟩
 
 /-- the walk hands `inCell = true` to everything below a `w:tc` -/
